@@ -16,6 +16,12 @@ Case kinds (spec['kind']):
         `G2.read` and by the model `g2ReadPrim` (record layout -> factory call of the C13 models -> reparam/reverse/
         swap); knots and control nets compared to 1e-9 (trigonometric data enter the model as floats).
 
+  g2mix whole G2 files mixing spline records and primitive records, read by `G2.read` and by the model
+        `g2ReadMixed` (one loop over both kinds of record).
+Corpus (corpus/C19/divergences.json, built by `python -m props.C19` from `corpus_specs`): `G2.write([])`
+(IndexError), flag lines spelled `00`/`+0`/`-0`/`007`/` 0 ` in primitive records (string comparison with '0'),
+a non-planar curve handed to `SVG.write` (RuntimeError).
+
 Oracle (model independent): see `oracle`.
 
 Finding class still present in the tree (`classify`; the model follows the PROPERTY):
@@ -53,7 +59,8 @@ RULE = ('g2w: lists of 1-4 objects, pardim 1-3, dim 2-3, rational/non-rational, 
         'torus/sphere/extrusion records with random rigid placement.  distinct = distinct protocol lines; non-trivial = all but '
         'malformed files.')
 REQUIRED_TAGS = ['g2w', 'g2r', 'spl', 'stl-binary', 'stl-ascii', 'svg', 'prim', 'periodic', 'rational', 'extreme',
-                 'full-mantissa', 'pardim=3', 'malformed', 'stl-volume', 'stl-n=None', 'mixed-magnitude', 'stl-dim2', 'prim-reversed-periodic', 'prim-unbounded']
+                 'full-mantissa', 'pardim=3', 'malformed', 'stl-volume', 'stl-n=None', 'mixed-magnitude', 'stl-dim2', 'prim-reversed-periodic', 'prim-unbounded', 'mixed-file', 'g2w-empty-list',
+                 'svg-not-planar', 'prim-flag-spelling=00']
 ASSUMPTIONS = ["'%.16g'/float(), '.4f', float32 packing and '%f' are trusted (the model carries exact numbers, the harness rounds)",
                'the seam split of periodic objects, bezier_representation and grid evaluation are performed by the real code on '
                'the harness side before the model is consulted (properties C07, C04/C05, C02)']
@@ -87,7 +94,9 @@ _SAFE = re.compile(r'[^A-Za-z0-9_:.+/-]')
 
 def _tok(w):
     if _INT.match(w):
-        return [Word('i'), int(w)]
+        # canonical decimal spelling -> [i,n]; '00', '+1', '-0', '007' -> [j,n] (same number, different string:
+        # the primitive readers compare flag lines with the string '0')
+        return [Word('i' if str(int(w)) == w else 'j'), int(w)]
     try:
         f = float(w)
         if math.isfinite(f) and '_' not in w:
@@ -427,6 +436,27 @@ def _prim_aux(p):
     return [[PI_F, W_F, S2_F], [ct, st, cp, sp_], lam, math.sqrt(sum(t * t for t in n))]
 
 
+def corpus_specs():
+    """The cases of corpus/C19/divergences.json (written once by `python -m props.C19`): behaviours where an earlier
+    version of the model differed from the code without a generated case noticing."""
+    import random
+    rng = random.Random(1919)
+    out = [{'kind': 'g2w', 'objs': [], 'stream': 'dyadic'}]                       # G2.write([]) -> IndexError
+    # flag lines are compared with the STRING '0': '00', '+0', '-0' are true, '0' (also ' 0 ') is false
+    for kind, spell in (('circle', '00'), ('line', '+0'), ('ellipse', '-0'), ('torus', '00'), ('sphere', '007'),
+                        ('circle', '0'), ('cylinder', '00')):
+        text, p = _prim(rng, kind, swap=0)
+        ls = text.rstrip('\n').split('\n')
+        assert ls[-1] == '0'
+        ls[-1] = spell if spell != '0' else ' 0 '
+        p['swap'] = int(spell != '0')
+        out.append({'kind': 'prim', 'text': '\n'.join(ls) + '\n', 'prim': p, 'flag_spelling': spell})
+    # SVG.write refuses non-planar objects
+    o = gen.rand_object(rng, pardim=1, dim=3, rational=False, pmin=2, pmax=4, periodic_prob=0.0)
+    out.append({'kind': 'svg', 'curves': [o], 'W': 1000, 'H': 1000, 'm': 0.05})
+    return out
+
+
 def generate(rng, tier):
     quick = tier == 'quick'
     specs = []
@@ -496,6 +526,19 @@ def generate(rng, tier):
         kind = PRIMS[i % len(PRIMS)]
         text, p = _prim(rng, kind, swap=(i // len(PRIMS)) % 2 if kind in ('circle', 'ellipse') else None)
         specs.append({'kind': 'prim', 'text': text, 'prim': p})
+    # ---- whole files mixing spline records and primitive records (what G2.read handles in one loop)
+    for i in range(16 if quick else 120):
+        parts, texts = [], []
+        for j in range(rng.choice([2, 3, 4])):
+            if (i + j) % 2 == 0:
+                o = _rand_obj(rng, 'dyadic', periodic_prob=0.0, pmax=3)
+                t = '\n'.join(foreign_g2_record(rng, o, STYLES[(i + j) % len(STYLES)])) + '\n'
+                parts.append({'kind': 'g2r', 'text': t, 'expect': [o], 'stream': 'dyadic', 'style': STYLES[(i + j) % len(STYLES)]})
+            else:
+                t, p = _prim(rng, PRIMS[(i * 3 + j) % (len(PRIMS) - 1)])      # every kind but 'arc'
+                parts.append({'kind': 'prim', 'text': t, 'prim': p})
+            texts.append(parts[-1]['text'])
+        specs.append({'kind': 'g2mix', 'text': ('\n' if i % 3 == 0 else '').join(texts), 'parts': parts})
     return specs
 
 
@@ -600,8 +643,11 @@ def _svg_roundtrip(sp, spec):
     try:
         fn = os.path.join(d, 'a.svg')
         curves = [gen.mk_object(sp, c) for c in spec['curves']]
-        with _io(sp).SVG(fn, spec['W'], spec['H'], spec['m']) as f:
-            f.write(curves)
+        import contextlib
+        import io as _pyio
+        with contextlib.redirect_stdout(_pyio.StringIO()):      # SVG.__exit__ prints the exception it re-raises
+            with _io(sp).SVG(fn, spec['W'], spec['H'], spec['m']) as f:
+                f.write(curves)
         root = etree.parse(fn).getroot()
         width, height = float(root.attrib['width']), float(root.attrib['height'])
         paths = []
@@ -623,13 +669,18 @@ def model_line(s):
         # the model opens periodic directions itself (C07 model of `split`) before printing
         return line('g2_write_obj', TOL, [gen.enc_object(o) for o in s['objs']])
     if k == 'g2r':
-        return line('g2_read', TOL, tokenise(s['text']))
+        return line('g2_read_mixed', [], TOL, tokenise(s['text']))
     if k == 'prim':
-        return line('g2_prim', _prim_aux(s['prim']), TOL, tokenise(s['text']))
+        return line('g2_read_mixed', [_prim_aux(s['prim'])], TOL, tokenise(s['text']))
+    if k == 'g2mix':
+        return line('g2_read_mixed', [_prim_aux(q['prim']) for q in s['parts'] if q['kind'] == 'prim'], TOL,
+                    tokenise(s['text']))
     if k == 'spl':
         return line('spl_read', TOL, tokenise(s['text'], spl=True))
     if k == 'stl':
-        return line('stl_file', _stl_dirs(s))
+        # the writer model evaluates the surfaces itself (exact Obj.evaluate at the model's sampling parameters)
+        n = s['n']
+        return line('stl_file2', TOL, [gen.enc_object(o) for o in s['objs']], -1 if n is None else n)
     if k == 'svg':
         # the model computes bezier_representation itself (C05 raise_order, C07 split, C04 insert_knot models)
         return line('svg_roundtrip2', s['W'], s['H'], s['m'], TOL, [gen.enc_object(c) for c in s['curves']])
@@ -650,7 +701,7 @@ def run_impl(sp, s):
             return raw_tokens(open(fn).read())
         finally:
             shutil.rmtree(d, ignore_errors=True)
-    if k in ('g2r', 'prim', 'spl'):
+    if k in ('g2r', 'prim', 'spl', 'g2mix'):
         d = _tmp()
         try:
             fn = os.path.join(d, 'a.' + ('spl' if k == 'spl' else 'g2'))
@@ -722,31 +773,26 @@ def _cmp_tokens(iv, mv, periodic=()):
 
 
 def _cmp_stl(s, iv, mv):
-    sp = _sp()
+    """Parsed file vs the writer model `stlFile`: header count, number of records, and every vertex of every
+    record in file order (the model's vertices are exact evaluations; the file holds their float32 / '.4f'
+    roundings)."""
     declared, present, facets = iv
-    surfs = _stl_surfaces(sp, s)
-    msurfs, counter = mv
-    if len(surfs) != len(msurfs):
-        return 'harness: %d surfaces vs %d model surfaces' % (len(surfs), len(msurfs))
-    if s['binary'] and declared != int(counter):
-        return 'declared count %s, model counter %s' % (declared, counter)
-    want = []
-    for srf, (u, v, tris) in zip(surfs, msurfs):
-        x = srf([float(t) for t in u], [float(t) for t in v])
-        x = np.asarray(x).reshape(len(u), len(v), -1)
-        if x.shape[2] == 2:
-            x = np.concatenate([x, np.zeros(x.shape[:2] + (1,))], axis=2)
-        for t in tris:
-            want.append([x[int(i), int(j)] for i, j in t])
-    if present != len(want) or len(facets) != len(want):
-        return 'facets present %s (%d parsed), model %d' % (present, len(facets), len(want))
-    for k, (fa, wa) in enumerate(zip(facets, want)):
+    mdecl, mrecs = mv
+    if s['binary'] and declared != int(mdecl):
+        return 'declared count %s, model header count %s' % (declared, mdecl)
+    if present != len(mrecs) or len(facets) != len(mrecs):
+        return 'facets present %s (%d parsed), model %d records' % (present, len(facets), len(mrecs))
+    for k, (fa, wa) in enumerate(zip(facets, mrecs)):
+        if len(fa) != 3 or len(wa) != 3:
+            return 'facet %d: %d vertices in the file, %d in the model' % (k, len(fa), len(wa))
         for a, w in zip(fa, wa):
+            w = [float(x) for x in w]
+            big = max(1e-300, max(abs(x) for x in w))
             for c in range(3):
                 tol = (6.2e-8 * abs(w[c]) + 1e-30) if s['binary'] else 0.5001e-4
-                tol += 1e-9 * max(1e-300, float(np.abs(w).max()))
+                tol += 1e-9 * big
                 if abs(a[c] - w[c]) > tol:
-                    return 'facet %d: file vertex %r, model grid point %r' % (k, a, w.tolist())
+                    return 'facet %d: file vertex %r, model vertex %r' % (k, a, w)
     return None
 
 
@@ -783,10 +829,10 @@ def compare(s, iv, mv):
         return diff(iv, mv, rtol=1e-15, atol=0.0)
     if k == 'spl':
         return diff(iv, [mv], rtol=1e-15, atol=0.0)      # SPL.read returns a one-element list
-    if k == 'prim':
-        # parsed object (knots, control net, flags) vs the model's factory call + post-processing; the
+    if k in ('prim', 'g2mix'):
+        # parsed objects (knots, control nets, flags) vs the model's factory calls + post-processing; the
         # trigonometric data reach the model as floats, hence a rounding-level tolerance
-        return diff(iv, [mv], rtol=1e-9, atol=1e-9)
+        return diff(iv, mv, rtol=1e-9, atol=1e-9)
     if k == 'stl':
         return _cmp_stl(s, iv, mv)
     if k == 'svg':
@@ -860,6 +906,8 @@ def _same_object(got, want_spec, fails, tag, rounded):
 
 def _oracle_g2w(sp, s):
     fails = []
+    if not s['objs']:
+        return []      # `G2.write([])` raises IndexError (`obj[0]`); nothing is written, nothing to read back
     objs = [gen.mk_object(sp, o) for o in s['objs']]
     d = _tmp()
     try:
@@ -994,6 +1042,8 @@ def _oracle_stl(sp, s):
 
 
 def _oracle_svg(sp, s):
+    if any(np.array(c['cps']).shape[-1] != 2 for c in s['curves']):
+        return []      # not planar: `SVG.write` refuses it (RuntimeError), outside the property's quantifier
     try:
         width, height, paths, back, curves = _svg_roundtrip(sp, s)
     except Exception as e:  # noqa: BLE001
@@ -1136,7 +1186,40 @@ def oracle(sp, s):
         return _oracle_svg(sp, s)
     if k == 'prim':
         return _oracle_prim(sp, s)
+    if k == 'g2mix':
+        return _oracle_mixed(sp, s)
     return []
+
+
+def _oracle_mixed(sp, s):
+    """Every record of a mixed file must read, inside the file, to what it reads to on its own (and that is checked
+    against its description by the per-record oracles); the file yields one object per record, in order."""
+    fails = []
+    d = _tmp()
+    try:
+        fn = os.path.join(d, 'a.g2')
+        with open(fn, 'w') as f:
+            f.write(s['text'])
+        try:
+            with _io(sp).G2(fn) as f:
+                back = f.read()
+        except Exception as e:  # noqa: BLE001
+            return ['reader raised %s on a file of %d valid records: %s' % (type(e).__name__, len(s['parts']), e)]
+        if len(back) != len(s['parts']):
+            return ['file holds %d records, read %d objects' % (len(s['parts']), len(back))]
+        for k, (b, q) in enumerate(zip(back, s['parts'])):
+            fn2 = os.path.join(d, 'p%d.g2' % k)
+            with open(fn2, 'w') as f:
+                f.write(q['text'])
+            with _io(sp).G2(fn2) as f:
+                alone = f.read()
+            if len(alone) != 1 or gen.obj_observables(alone[0]) != gen.obj_observables(b):
+                fails.append('record %d reads differently inside the file than on its own' % k)
+    finally:
+        shutil.rmtree(d, ignore_errors=True)
+    for k, q in enumerate(s['parts']):
+        fails += ['record %d: %s' % (k, m) for m in (_oracle_foreign(sp, q) if q['kind'] == 'g2r' else _oracle_prim(sp, q))]
+    return fails
 
 
 # =============================================================================================
@@ -1196,9 +1279,12 @@ def classify(s, res=None):
                     return None
                 idx.append(int(mm.group(1)))
         if idx and all(0 <= i < len(objs) and not _nonperiodic(objs[i]) for i in idx):
-            # (`periodic-seam-split` is fixed with periodic insert_knot: a failure on a periodic object is an
-            #  unexplained violation again)
-            pass
+            if k == 'svg':
+                # one broken curve spoils the drawing-wide similarity estimate or the whole file
+                if any(_split_broken(sp, objs[i], 4) for i in idx):
+                    return 'periodic-seam-split'
+            elif all(_split_broken(sp, objs[i]) for i in idx):
+                return 'periodic-seam-split'
     return None
 
 
@@ -1207,6 +1293,8 @@ def _all_objs(s):
         return s['objs']
     if s['kind'] in ('g2r', 'spl'):
         return s['expect'] or []
+    if s['kind'] == 'g2mix':
+        return [o for q in s['parts'] if q['kind'] == 'g2r' for o in q['expect']]
     if s['kind'] == 'svg':
         return s['curves']
     return []
@@ -1243,6 +1331,15 @@ def tags(s, res):
     if k == 'svg':
         out.append('svg-curves=%d' % len(objs))
         out += ['svg-order=%d' % o['bases'][0]['order'] for o in objs]
+    if k == 'g2mix':
+        out.append('mixed-file')
+        out += ['mixed-has-' + q['kind'] for q in s['parts']]
+    if k == 'g2w' and not objs:
+        out.append('g2w-empty-list')
+    if k == 'svg' and any(np.array(c['cps']).shape[-1] != 2 for c in s['curves']):
+        out.append('svg-not-planar')
+    if k == 'prim' and s.get('flag_spelling'):
+        out.append('prim-flag-spelling=' + s['flag_spelling'])
     if k == 'prim':
         out.append('prim=' + s['prim']['type'])
         if s['prim']['type'] in ('circle', 'ellipse') and s['prim']['swap']:
@@ -1256,3 +1353,13 @@ def tags(s, res):
 
 def nontrivial(s, res):
     return not s.get('malformed')
+
+
+if __name__ == '__main__':
+    import json
+    import sys
+    dst = os.path.join(os.path.dirname(os.path.dirname(os.path.dirname(os.path.abspath(__file__)))), 'corpus', 'C19')
+    os.makedirs(dst, exist_ok=True)
+    with open(os.path.join(dst, 'divergences.json'), 'w') as f:
+        json.dump(corpus_specs(), f, indent=1, sort_keys=True)
+    sys.stdout.write('wrote %s\n' % os.path.join(dst, 'divergences.json'))
